@@ -63,6 +63,17 @@ func replayMore(rp *ev.Replay) *ev.Failure {
 			}
 		}
 		return nil
+	case "C09/racecold":
+		var c struct{ K int }
+		if err := json.Unmarshal(rp.Case, &c); err != nil {
+			return ev.Failf("C09/replay", "bad case: %v", err)
+		}
+		for i := 0; i < 10; i++ {
+			if f := c09ColdRoundOnce(c.K); f != nil {
+				return f
+			}
+		}
+		return nil
 	case "C06/bcase":
 		return replayBCase("C06", rp.Case, oracleC06)
 	case "C07/bcase":
